@@ -14,6 +14,7 @@ import random
 import signal
 import sys
 import traceback
+import zlib
 
 SCRIPT_CPU_LIMIT = float(os.environ.get('VERIF_SCRIPT_CPU_LIMIT', '20'))
 MAX_HANGS = 3
@@ -61,6 +62,9 @@ def main():
         state['script'] = script
         signal.setitimer(signal.ITIMER_PROF, SCRIPT_CPU_LIMIT)
         emit({'begin': script})
+        # the code under verification draws from the global generator (server-set shuffle, ping period, jitter):
+        # seed it from the script so that a script behaves the same in a sweep, in a shrink step and in a replay
+        random.seed(zlib.crc32(json.dumps(script, sort_keys=True, default=str).encode()))
         try:
             case = mod.run_script(script)
         except BaseException as ex:  # the harness itself failed: report, never hide
